@@ -49,6 +49,37 @@ func derivesFromParam(v ssa.Value, prm *ssa.Parameter) bool {
 				v = ta.X
 				continue
 			}
+			// a result of a helper that hands back one of its arguments after asserting its type
+			// (oldS, newS, ok := bothSliceable(old, new))
+			if c, ok := x.Tuple.(*ssa.Call); ok {
+				if h := core.Callee(c); h != nil && core.InModule(h) && h.Blocks != nil && i < 6 {
+					src := -1
+					for j, hp := range h.Params {
+						all, n := true, 0
+						for _, ret := range core.ReturnsOf(h) {
+							if x.Index >= len(ret.Results) {
+								all = false
+								break
+							}
+							rv := ret.Results[x.Index]
+							if core.IsNilConst(rv) {
+								continue
+							}
+							n++
+							if !derivesFromParam(rv, hp) {
+								all = false
+							}
+						}
+						if all && n > 0 {
+							src = j
+						}
+					}
+					if src >= 0 && src < len(c.Call.Args) {
+						v = c.Call.Args[src]
+						continue
+					}
+				}
+			}
 			return false
 		case *ssa.TypeAssert:
 			v = x.X
